@@ -63,12 +63,14 @@ def quiet():
     global _DEVNULL
     if _DEVNULL is None:
         _DEVNULL = open(os.devnull, 'w')
-    old = sys.stdout
+    old, olderr = sys.stdout, sys.stderr
     sys.stdout = _DEVNULL
+    sys.stderr = _DEVNULL      # the schematic code prints swallowed tracebacks to stderr
     try:
         yield
     finally:
         sys.stdout = old
+        sys.stderr = olderr
 
 
 def _py4hw_frames(tb):
